@@ -577,8 +577,17 @@ class SigmaCorrelationRule(SigmaRuleBase, ProcessingItemTrackingMixin):
             if isinstance(rules_value, str):
                 # Simple rule reference
                 rules = [SigmaRuleReference(rules_value)]
-            elif isinstance(rules_value, list):
+            elif isinstance(rules_value, list) and all(
+                isinstance(rule, str) for rule in rules_value
+            ):
                 rules = [SigmaRuleReference(rule) for rule in rules_value]
+            elif isinstance(rules_value, list):
+                # e.g. an unquoted number would be taken as position in the rule collection
+                errors.append(
+                    sigma_exceptions.SigmaCorrelationRuleError(
+                        "Rule references must be strings (rule name or identifier).", source=source
+                    )
+                )
             else:
                 errors.append(
                     sigma_exceptions.SigmaCorrelationRuleError(
